@@ -6,6 +6,8 @@ LEAN_MODULE = "XcmModel.Props.C17"
 THEOREMS = [
     "XcmModel.C17.C17_monotone", "XcmModel.C17.rcnt_run", "XcmModel.C17.C17_counters_exact",
     "XcmModel.C17.C17_order", "XcmModel.C17.C17_refused_counts_nothing", "XcmModel.C17.C17_idle_agreement",
+    "XcmModel.C17btcp.C17_btcp_counters_exact", "XcmModel.C17btcp.C17_btcp_refused_counts_nothing",
+    "XcmModel.C17btls.C17_btls_counters_exact", "XcmModel.C17btls.C17_btls_monotone", "XcmModel.C17btls.C17_btls_refused_counts_nothing",
     "XcmModel.C17.C17_ux_monotone", "XcmModel.C17.C17_ux_refused_counts_nothing", "XcmModel.C17.C17_ux_truncated_counts_delivered", "XcmModel.C17.C17_ux_counters_exact",
 ]
 
@@ -33,6 +35,25 @@ def run(ctx):
                 ctx.sample({"harness": "unit_framing_tcp", "ops": ops[:8], "model_out": m[:8]})
             if ctx.over_budget():
                 break
-    ctx.assumptions += ["byte counters of btcp are checked under C02; btls and the utls delegation are not inside this unit check yet"]
+    # byte-stream transports: the four byte counters are part of every compared line of unit_btcp and unit_btls
+    from gen import btcp as _btcp, btls as _btls
+    bexe = _btcp.build()
+    bmon = _btcp.Monitor(ctx)
+    bops = []
+    for k in range(60 if quick else 3000):
+        bops += _btcp.gen_history(ctx.rng.fork("c17b%d" % k), 50, ctx)
+        if ctx.over_budget():
+            break
+    bm, bil = ctx.differential("unit_btcp", "btcp", bexe, bops, label="btcp counters")
+    bmon.run(bops, bil)
+    for o, l in zip(bops, bm):
+        f = l.split("|")
+        if len(f) > 2:
+            ctx.nontriv(("btcp", f[2]))
+    _btls.run_part(ctx, 30 if quick else 1500, exhaustive=True, label="c17btls")
+    ctx.rule += ("; unit_btcp / unit_btls: the four byte counters of the real xcm_tp_btcp.c (short writes, refusals, errors) and "
+                 "xcm_tp_btls.c (retained output: counted in from_app when accepted, in to_lower when SSL_write takes it) after every "
+                 "call vs the Lean models + monitors (monotone, order, exact deltas)")
+    ctx.assumptions += ["utls delegates its counters to the sub-socket in use (exercised by sys_attr's attribute sweep, not modelled)"]
     ux.run_part(ctx, 40 if quick else 2000, "c17")
     ctx.rule += "; unit_ux: the eight counters of the real xcm_tp_ux.c after every scripted send/receive (truncating capacities included) vs the Lean Ux model + monitor"
